@@ -287,6 +287,22 @@ def run(ctx, rep):
     rep.ob("R11.4", "Channel.closed reflects the stream", bool(okp),
            "returns self.stream.closed" if okp else "Channel.closed no longer reflects the stream state",
            closed_prop.loc if closed_prop else fcl.loc, kind="site")
+    for meth in ("poll", "fileno"):
+        fm = ch.methods.get(meth)
+        if fm is None:
+            continue
+        gm = ctx.cfg(fm)
+        dn = [n for n in gm.live if n.ast is not None and n.kind in ("stmt", "test") and A.find_calls(n.ast, "self.stream.%s" % meth)]
+        ids = {n.id for n in dn}
+        cnt = Q.count_on_paths(gm, gm.entry, lambda n: n.id in ids)
+        at = cnt.get(gm.exit.id, frozenset())
+        guarded = any(isinstance(x, (ast.BoolOp, ast.IfExp)) for n in dn for x in A.walk(n.ast)) or \
+            any(n.kind == "test" for n in gm.live)
+        okd = at == frozenset([1]) and not guarded
+        rep.ob("R11.4", "Channel.%s always asks the stream (a closed stream answers with EOFError)" % meth, okd,
+               "unconditional delegation to self.stream.%s(...)" % meth if okd else
+               "Channel.%s can return without asking the stream: on a closed stream it answers instead of raising EOFError, so "
+               "serve() on a dead connection returns False and a waiter without expiry spins forever" % meth, fm.loc)
     # ClosedFile raises EOFError for every I/O attribute
     cf = ctx.cls("rpyc.core.stream.ClosedFile")
     ga_ = cf.methods.get("__getattr__")
